@@ -33,6 +33,8 @@ CLAIMS = {
          "the byte-level layout of a row (names, value name, choices) is not specified beyond the description/default/env text; fmt and bufio are assumed; termination of the mutual recursion of the man-page walk is not proved; ordinals of 'at call' assertions are tied to the current source"),
  "C17": ("wrapText: safety of every slice expression, termination, break positions 1 <= pos < width, and content preservation (the text without white space and hyphens is unchanged)",
          "alignment (getAlignmentInfo / writeHelpOption / argument rows: the padding counts are non-negative) is not yet under contract - the byte/character defect there was repaired by a fix: commit but is not yet guarded by an obligation; nwd is a trusted ghost function"),
+ "C18": ("completion: completeCommands returns exactly the non-hidden subcommands of the current command with the typed prefix; completeOptionNames offers only non-hidden long names of the table with that prefix, one item per such name (counting invariant over every order the runtime may range over the table), a non-empty short prefix is returned as it is; completeValue re-attaches the spelling typed so far to each completion of the value's type; complete: the word walk decides 'value attached to the first short option' exactly as the parser's splitShortConcatArg does (width of the first character as decoded), one source of candidates per call, the result is the sorted rearrangement of that source",
+         "the relational claim 'the parser reaches the same command context on the same prefix' is covered only for the attached-value rule of clusters, not for the whole walk (positionals, terminator, command switch are safety-checked only); short-name offers (second table) and the Completer implementations are not specified; table entries are trusted to be non-nil"),
  "C19": ("multiTag.scan against a recursive grammar of the tag text (keys, escapes inside quoted values, repeated keys in order, strconv.Unquote of each literal), safety for every string, ErrTag on every error exit",
          "Get/GetMany/cached and the attribute mapping in scanStruct (which tag feeds which Option field), duplicate detection and short-name length are not yet under contract"),
  "C20": ("levenshtein proved equal to the Wagner-Fischer recurrence over rune sequences (table invariants), closestChoice returns the first minimum, visible/sorted command lists, estimateCommand: candidates are exactly the sorted visible subcommands, suggestion iff 2*distance < length of the suggested name, otherwise the enumeration of all of them (message text proved)",
